@@ -208,12 +208,13 @@ CLAIMED = {
               "equivariant (F(R lambda; R M) = R F(lambda; M)), the line search makes the same decisions on rotated data, and "
               "the whole damped Newton iteration (any tolerance / cap / depth, converged or not) returns the rotated "
               "distribution for rotated moments for every exact linear solver with nonsingular Jacobians (J(R lambda) = R J(lambda) "
-              "R^T entry by entry, R orthogonal, hence an exact Newton step is equivariant). "
+              "R^T entry by entry, R orthogonal, hence an exact Newton step is equivariant); the same for the mirror image "
+              "(b1, b2 -> -b1, -b2 gives D(-theta)) for MEM, the approximate variant and Newton with an exact solver. "
               "Correspondence as C05; fidelity of Newton / scipy / MEM on "
               "von-Mises mixtures with spread >= 1.5 bins (N in 24,36,72,144), Newton-vs-scipy agreement, rotation by every k "
               "and mirror equivariance of all four variants, finite-difference Jacobian, on the implementation."),
         design="6/C06", technique="Lean 4 proof at ℝ (loop invariant, closed-form Jacobian, HasDerivAt) + Float-model correspondence + implementation oracles",
-        note=PROOF_NOTE + " Second tie: tools/py2lean_arith.py re-translates mem2.py: initial_value from the current source on every run and OsuProps/C06Gen.lean proves it equal to the model's first guess. That the solvers do converge on resolved inputs, MEM's discretisation error (exact aliasing identity in the harness) and newton_rotates_exact assumes an exact linear solve and nonsingular Jacobians (real arithmetic): the float Cholesky / lstsq of the code is the oracle's business; scipy runs and the mirror image are decided by the oracles only."),
+        note=PROOF_NOTE + " Second tie: tools/py2lean_arith.py re-translates mem2.py: initial_value from the current source on every run and OsuProps/C06Gen.lean proves it equal to the model's first guess. That the solvers do converge on resolved inputs, MEM's discretisation error (exact aliasing identity in the harness) and newton_rotates_exact assumes an exact linear solve and nonsingular Jacobians (real arithmetic): the float Cholesky / lstsq of the code, and scipy's root finder, are the oracles' business; scipy runs and the mirror image are decided by the oracles only."),
     "C08": dict(
         text=("Lean 4 theorems at ℝ over the model of st4_wind_input / st4_wave_breaking / st6_wave_breaking / operations "
               "(one spatial point, wavenumbers and group velocities as inputs): the ST4 input of every bin is >= 0 for a "
